@@ -111,4 +111,34 @@ def sign_tests(ix, conds):
             out.append(("is_negative", kids(a)[0], o2))
         elif tag(a) == "op" and payload(a)[0] == "is_zero" and kids(a) and tag(kids(a)[0]) == "field" and payload(kids(a)[0])[0] == "value":
             out.append(("is_zero", kids(kids(a)[0])[0], o2))
+        elif tag(a) == "op" and payload(a)[0] in ("lt", "gt", "le", "ge", "eq") and len(kids(a)) == 2:
+            # comparisons of a signed value with the signed zero (also what `match x.cmp(&Integer::zero())` stands for)
+            def _zero(z):
+                zi = ix.inline(z)
+                return (tag(zi) == "call" and str(payload(zi)[0]).endswith("Integer::zero")) or \
+                       (tag(zi) == "constdef" and str(payload(zi)[0]).endswith("Integer::ZERO"))
+            l, r = kids(a)
+            nm = payload(a)[0]
+            if _zero(l) and not _zero(r):
+                l, r = r, l
+                nm = {"lt": "gt", "gt": "lt", "le": "ge", "ge": "le", "eq": "eq"}[nm]
+            if _zero(r) and not _zero(l):
+                if nm == "lt":
+                    out.append(("is_negative", l, o2))
+                    if o2:
+                        out.append(("is_zero", l, False))
+                elif nm == "ge":
+                    out.append(("is_negative", l, not o2))
+                    if not o2:
+                        out.append(("is_zero", l, False))
+                elif nm == "gt":
+                    if o2:
+                        out.append(("is_negative", l, False))
+                        out.append(("is_zero", l, False))
+                elif nm == "le":
+                    if not o2:
+                        out.append(("is_negative", l, False))
+                        out.append(("is_zero", l, False))
+                elif nm == "eq":
+                    out.append(("is_zero", l, o2))
     return out
